@@ -13,7 +13,7 @@ class LostAnchor(Exception):
 
 class Contract:
     def __init__(self, requires=(), ensures=(), ret='r', rename=None, free=False, body_subst=(), drop_const=True,
-                 self_ty=None, note=None, extra_generics=None, props=(), optional=False):
+                 self_ty=None, note=None, extra_generics=None, props=(), optional=False, params=()):
         self.requires = list(requires)   # [(label, text)]
         self.ensures = list(ensures)     # [(label, text)]
         self.ret = ret
@@ -23,6 +23,7 @@ class Contract:
         self.props = list(props)         # property ids this obligation counts for
         self.note = note
         self.optional = optional         # the function need not be generated (e.g. an override of a std default method)
+        self.params = list(params)       # names the clauses use for the non-self parameters, in order; renamed to the generated names
 
 def T(text):
     return rtok.parse(text)
@@ -356,6 +357,45 @@ def _clauses(kind, lst, ident):
         out.append('        %s, // @@%s@%s' % (text, ident, label))
     return out
 
+def _param_names(group):
+    """Names of the non-self parameters (None where the pattern is not a plain identifier)."""
+    pieces, cur, depth = [], [], 0
+    for t in group.items:
+        if t.is_p('<'):
+            depth += 1
+        elif t.is_p('>'):
+            depth -= 1
+        if t.is_p(',') and depth == 0:
+            pieces.append(cur)
+            cur = []
+        else:
+            cur.append(t)
+    if cur:
+        pieces.append(cur)
+    names = []
+    for pc in pieces:
+        head = []
+        for t in pc:
+            if t.is_p(':'):
+                break
+            head.append(t)
+        if any(t.is_i('self') for t in head):
+            continue
+        head = [t for t in head if not t.is_i('mut')]
+        names.append(head[0].text if len(head) == 1 and head[0].is_i() else None)
+    return names
+
+def _rename_params(c, actual):
+    """The clauses are written over the contract's own parameter names; the generated function may call them anything."""
+    import re
+    req, ens = list(c.requires), list(c.ensures)
+    for i, cname in enumerate(c.params):
+        if i < len(actual) and actual[i] and actual[i] != cname:
+            rx = re.compile(r'\b%s\b' % re.escape(cname))
+            req = [(l, rx.sub(actual[i], t)) for l, t in req]
+            ens = [(l, rx.sub(actual[i], t)) for l, t in ens]
+    return req, ens
+
 def _emit_fn(m, c, assoc, h, trait_ident, self_ident, st):
     s = rtok.parse_fn(m)
     name = c.rename or s.name
@@ -412,8 +452,9 @@ def _emit_fn(m, c, assoc, h, trait_ident, self_ident, st):
     lines.append(sig.strip())
     if where:
         lines.append('    where ' + rtok.render(where))
-    lines.extend(_clauses('requires', c.requires, ident))
-    lines.extend(_clauses('ensures', c.ensures, ident))
+    req, ens = _rename_params(c, _param_names(s.params)) if c.params else (c.requires, c.ensures)
+    lines.extend(_clauses('requires', req, ident))
+    lines.extend(_clauses('ensures', ens, ident))
     lines.append(rtok.render_pretty(body))
     lines.append('// @@END %s' % ident)
     st['R2.contracts_inserted'] += 1
